@@ -2,6 +2,7 @@
 import itertools, math, json, hashlib
 import numpy as np
 from harness.common import parse_q, close_log, qlog, Infra, np_seed, fstr
+from harness.common import sexp
 from harness import spn as S
 from harness.build import build_from_table, table_with_py
 from harness.c01 import iso_floor, cont_value, near_edge, FAMILIES
@@ -149,10 +150,10 @@ def check_net(ctx, root, ncols, rs, n_pat, n_val, tag):
             bf = brute_force_impl(root, x, order, dom, scope)
             xr = [None if np.isnan(t) else float(t) for t in x]
             if bf is not None:
-                ok = abs(math.exp(float(ll[r])) - bf) <= 1e-5 + 2e-4 * bf
+                ok = abs(sexp(float(ll[r])) - bf) <= 1e-5 + 2e-4 * bf
                 if not ok:
                     ctx.violation('c02-marginal-vs-completions',
-                                  f'marginal likelihood {math.exp(float(ll[r]))!r} != sum over completions of complete-evidence likelihoods {bf!r} at row {xr}',
+                                  f'marginal likelihood {sexp(float(ll[r]))!r} != sum over completions of complete-evidence likelihoods {bf!r} at row {xr}',
                                   replay=replay([xr]))
                     return
             if bad:
@@ -167,10 +168,10 @@ def check_net(ctx, root, ncols, rs, n_pat, n_val, tag):
                     if bf2 is None:
                         continue
                     l2 = float(impl_ll(root, y[None, :])[0])
-                    if abs(math.exp(l2) - bf2) > 1e-5 + 2e-4 * bf2:
+                    if abs(sexp(l2) - bf2) > 1e-5 + 2e-4 * bf2:
                         yr = [None if np.isnan(t) else float(t) for t in y]
                         ctx.violation('c02-marginal-vs-completions',
-                                      f'marginal likelihood {math.exp(l2)!r} != sum over completions of complete-evidence likelihoods {bf2!r} at row {yr}',
+                                      f'marginal likelihood {sexp(l2)!r} != sum over completions of complete-evidence likelihoods {bf2!r} at row {yr}',
                                       replay=replay([yr]))
                         return
                 ctx.violation('c02-model-disagrees', bad + f' at row {xr} (implementation is self-consistent on this row and its neighbours)',
@@ -306,7 +307,7 @@ def replay(rep):
         x = np.array([np.nan if t is None else t for t in row], dtype=np.float32)
         ll = float(impl_ll(root, x[None, :])[0])
         bf = brute_force_impl(root, x, order, dom, list(root.scope))
-        print('row', row, 'marginal', math.exp(ll), 'sum over completions', bf)
-        if bf is not None and abs(math.exp(ll) - bf) > 1e-5 + 2e-4 * bf:
+        print('row', row, 'marginal', sexp(ll), 'sum over completions', bf)
+        if bf is not None and abs(sexp(ll) - bf) > 1e-5 + 2e-4 * bf:
             ok = False
     return ok
